@@ -2,6 +2,7 @@ package rules
 
 import (
 	"fmt"
+	"go/token"
 
 	"golang.org/x/tools/go/ssa"
 
@@ -46,7 +47,9 @@ func c07QuotaOf(fn *ssa.Function, k int) ssa.Value {
 func c07(c *eng.Ctx) {
 	c.Rule("R1", "quota bounds at the point where calculateNextQuota hands the quota to setFlowControlLimit (global-allocate branch): next ≥ 1; next ≤ max(total, 1); next ≤ max(current + remaining, 1) with remaining = max(total − allocated, 0); burst = ceil(next/total·Burst_total) only when total > 0", 6)
 	c.Rule("R2", "read-compute-save is one critical section: every store read whose result feeds calculateNextQuota/calculateUpstreamCondition, and both Saves, execute after the per-upstream mutex is locked and before it is released (deferred unlock)", 5)
-	c.Rule("R3", "on every successful return of UpdateRateLimitConditionStatus: Save(condition) → calculateUpstreamCondition → Save(upstream condition), each Save's error checked, and the returned object is the saved one", 5)
+	c.Rule("R4", "the recorded usage survives a cluster update: in updateUpstreamStateCondition the status kept for a schema is the previously recorded one whenever it exists; a fresh (zero) status is used only when the lookup by schema name found nothing", 2)
+	c.Rule("R5", "the recorded sum is the sum of the quotas on record: calculateUpstreamCondition adds the Spec quota (max / qps / burst) of every item of every condition listed for the upstream, skipping only the upstream's own state record, and stores the result as the state's status", 6)
+	c.Rule("R3", "on every successful return of UpdateRateLimitConditionStatus: Save(condition) → calculateUpstreamCondition → Save(upstream condition), each Save's error checked, the recomputation works on the stored state object, and the returned object is the saved one", 6)
 
 	// ---- R1
 	if fn := c.MustFunc(pkgLimiter, "calculateNextQuota"); fn != nil {
@@ -112,6 +115,8 @@ func c07(c *eng.Ctx) {
 			}
 		}
 	}
+
+	c07State(c)
 
 	// ---- R2 / R3
 	if up := c.MustMethod(pkgLimiter, "rateLimiter", "UpdateRateLimitConditionStatus"); up != nil {
@@ -224,6 +229,16 @@ func c07(c *eng.Ctx) {
 			// the recomputation reads the store it saved to, and the saved sum is its result
 			ca := eng.Args(cu)
 			c.Check("R3", up, "recomputation uses the same store", cu.Pos(), len(ca) == 2 && ca[0] == eng.Receiver(s1) && eng.Receiver(s1) == eng.Receiver(s2), "")
+			// the sum is refreshed on the stored state object itself: if the following Save of the state fails
+			// (write-through API store), the record in memory still accounts for the quota just saved
+			stored := false
+			if len(ca) == 2 {
+				if cc, idx := eng.CallResultOf(ca[1]); cc != nil && idx == 0 && eng.IsCall(cc, "("+tLimitStore+").Get") {
+					stored = true
+				}
+			}
+			c.Check("R3", up, "recomputation updates the stored state object in place", cu.Pos(), stored,
+				"the allocated sum must be refreshed on the object obtained from the store (not on a copy): with a copy, a failed Save of the state after the instance's quota was saved leaves a stale sum on record and the next report spends the same remaining quota again")
 			// same upstream key for both saves
 			c.Check("R3", up, "both saves keyed by the condition's upstream", s1.Pos(), sameLoad(eng.Args(s1)[0], eng.Args(s2)[0]), "")
 		}
@@ -323,4 +338,150 @@ func c07Fixtures(c *eng.Ctx) {
 		cp := f.HasU(func(t *eng.Term) bool { return t.Key() == capKey })
 		c.Fixture("C07.bounds/"+name, want, fmt.Sprintf("ge1=%v cap=%v", ge1, cp))
 	}
+}
+
+
+// c07State: R4 and R5.
+func c07State(c *eng.Ctx) {
+	// ---- R4
+	if us := c.MustFunc(pkgLimiter, "updateUpstreamStateCondition"); us != nil {
+		// the lookup of the previously recorded status by schema name
+		var look *ssa.Lookup
+		eng.Instrs(us, func(ins ssa.Instruction) {
+			l, ok := ins.(*ssa.Lookup)
+			if !ok || !l.CommaOk {
+				return
+			}
+			cc, _ := eng.CallResultOf(l.X)
+			if cc != nil && eng.IsCall(cc, pkgRLUtil+".FlowControlStatusToMap") {
+				look = l
+			}
+		})
+		if look == nil {
+			c.Fail("R4", us, "recorded status looked up by schema name", us.Pos(), "the previous status of the schemas is not consulted: every cluster update forgets the allocated sums")
+		} else {
+			// the status map is built from the state's own recorded statuses
+			cc, _ := eng.CallResultOf(look.X)
+			fromState := c.Slicer().DerivesFrom(eng.Args(cc)[0], func(v ssa.Value) bool {
+				return eng.FieldLoadOf(v, pkgV1alpha1+".RateLimitStatus", "LimitItemStatuses")
+			})
+			c.Check("R4", us, "recorded status looked up by schema name", look.Pos(), fromState, "the map must be built from the state condition's own Status.LimitItemStatuses")
+			// every zero-status literal (store of the constant RequestLevel 0 / empty detail into the status cell)
+			// is control-dependent on exactly the lookup's ok flag being false
+			var okVal ssa.Value
+			for _, e := range eng.ExtractOf(look, 1) {
+				okVal = e
+			}
+			n := 0
+			eng.Instrs(us, func(ins ssa.Instruction) {
+				st, isSt := ins.(*ssa.Store)
+				if !isSt || !eng.FieldAddrOf(st.Addr, pkgV1alpha1+".RateLimitItemStatus", "RequestLevel") {
+					return
+				}
+				n++
+				guards := eng.GuardsOf(st)
+				onlyNotFound := false
+				for _, g := range guards {
+					r := g.Rel()
+					if r.X == okVal && ((eng.IsBoolConst(r.Y, false) && r.Op == token.EQL) || (eng.IsBoolConst(r.Y, true) && r.Op == token.NEQ)) {
+						onlyNotFound = true
+					}
+				}
+				c.Check("R4", us, "fresh status only when none is recorded", st.Pos(), onlyNotFound && okVal != nil,
+					"the recorded status (allocated sum, request level) of a schema is replaced by a zero status although one is on record — e.g. when the global limit changes: the next report then sees allocated = 0 and is granted the whole limit on top of the quotas already out")
+			})
+			if n == 0 {
+				c.Fail("R4", us, "fresh status only when none is recorded", us.Pos(), "no initial status for new schemas found")
+			}
+		}
+	}
+	// ---- R5
+	cu := c.MustMethod(pkgLimiter, "rateLimiter", "calculateUpstreamCondition")
+	if cu == nil {
+		return
+	}
+	// the conditions summed are ListUpstream(of the state's own upstream)
+	lists := eng.CallsTo(cu, "("+tLimitStore+").ListUpstream")
+	okList := len(lists) == 1 && eng.Receiver(lists[0]) == ssa.Value(cu.Params[1]) &&
+		eng.FieldLoadOf(eng.Args(lists[0])[0], pkgV1alpha1+".RateLimitSpec", "UpstreamCluster")
+	c.Check("R5", cu, "sums over every condition of the state's upstream", cu.Pos(), okList, "the allocated sum is computed from ListUpstream(state.Spec.UpstreamCluster) of the store passed in")
+	// accumulations: x.F += item.F with item from Spec.LimitItemConfigurations (not Status)
+	type acc struct{ typ, field string }
+	for _, a := range []acc{{pkgV1alpha1 + ".MaxRequestsInflightFlowControlSchema", "Max"}, {pkgV1alpha1 + ".TokenBucketFlowControlSchema", "QPS"}, {pkgV1alpha1 + ".TokenBucketFlowControlSchema", "Burst"}} {
+		found := false
+		good := false
+		eng.Instrs(cu, func(ins ssa.Instruction) {
+			st, isSt := ins.(*ssa.Store)
+			if !isSt || !eng.FieldAddrOf(st.Addr, a.typ, a.field) {
+				return
+			}
+			add, isAdd := st.Val.(*ssa.BinOp)
+			if !isAdd || add.Op != token.ADD {
+				return
+			}
+			found = true
+			// one operand is the previous value of the same cell, the other a Spec item's field
+			var other ssa.Value
+			sameAddr := func(a, b ssa.Value) bool {
+				fa, oka := a.(*ssa.FieldAddr)
+				fb, okb := b.(*ssa.FieldAddr)
+				return a == b || (oka && okb && fa.X == fb.X && fa.Field == fb.Field)
+			}
+			if u, ok := add.X.(*ssa.UnOp); ok && sameAddr(u.X, st.Addr) {
+				other = add.Y
+			} else if u, ok := add.Y.(*ssa.UnOp); ok && sameAddr(u.X, st.Addr) {
+				other = add.X
+			}
+			if other == nil || !eng.FieldLoadOf(other, a.typ, a.field) {
+				return
+			}
+			fromSpec := c.Slicer().DerivesFrom(other, func(v ssa.Value) bool {
+				return eng.FieldLoadOf(v, pkgV1alpha1+".RateLimitSpec", "LimitItemConfigurations")
+			})
+			fromStatus := c.Slicer().DerivesFrom(other, func(v ssa.Value) bool {
+				return eng.FieldLoadOf(v, pkgV1alpha1+".RateLimitStatus", "LimitItemStatuses")
+			})
+			// every iteration of the two enclosing loops reaches the accumulation unless the condition is the state record
+			good = fromSpec && !fromStatus
+		})
+		c.Check("R5", cu, "sum += Spec "+a.field+" of every item", cu.Pos(), found && good, "the recorded sum accumulates the quota on record (Spec) of each instance condition")
+	}
+	// the only skip inside the loop over conditions is the state record itself
+	skipOK := true
+	nSkip := 0
+	for _, l := range findRangeLoops(cu) {
+		cc, _ := eng.CallResultOf(l.S)
+		if cc == nil || !eng.IsCall(cc, "("+tLimitStore+").ListUpstream") {
+			continue
+		}
+		// edges from the body region straight back to the header without reaching an accumulation
+		for _, b := range cu.Blocks {
+			iff, ok := b.Instrs[len(b.Instrs)-1].(*ssa.If)
+			if !ok || !eng.InLoop(b) || b == l.Header {
+				continue
+			}
+			r := eng.RelOf(iff.Cond, true)
+			isName := func(v ssa.Value) bool { return eng.FieldLoadOf(v, "k8s.io/apimachinery/pkg/apis/meta/v1.ObjectMeta", "Name") }
+			isStateName := func(v ssa.Value) bool {
+				x, _ := eng.CallResultOf(v)
+				return x != nil && eng.IsCall(x, pkgLimiter+".upstreamStateConditionName")
+			}
+			if (isName(r.X) && isStateName(r.Y)) || (isName(r.Y) && isStateName(r.X)) {
+				nSkip++
+				if r.Op != token.EQL && r.Op != token.NEQ {
+					skipOK = false
+				}
+			}
+		}
+	}
+	c.Check("R5", cu, "only the state record is skipped", cu.Pos(), skipOK && nSkip == 1, "inside the loop over the upstream's conditions exactly one test compares the condition's name with the state record's name")
+	// the result is stored as the state's status
+	stored := false
+	for _, st := range eng.StoresToField([]*ssa.Function{cu}, pkgV1alpha1+".RateLimitStatus", "LimitItemStatuses") {
+		root, _ := eng.AccessPath(st.Addr)
+		if root == ssa.Value(cu.Params[2]) {
+			stored = true
+		}
+	}
+	c.Check("R5", cu, "sums stored as the state's status", cu.Pos(), stored, "the new sums must replace Status.LimitItemStatuses of the state condition passed in (and returned)")
 }
